@@ -275,6 +275,12 @@ func c09CheckBatch(c c09BatchCase) h.Result {
 					xk = env.expanded(ent.Key)
 					if op.NilKey {
 						xk = nil
+						if (op.Lo+i)&1 == 1 {
+							// ... or the zero value of the exported struct: never produced by
+							// NewExpandedPublicKey, guarded by its validity flag - no key at all
+							xk = &ed25519.ExpandedPublicKey{}
+							want = false
+						}
 					}
 					if xk == nil {
 						want = false
